@@ -130,6 +130,11 @@ fn ord_main<C: ord::OrdColl>(a: &Args, tr: &mut out::Trace) {
             let text = std::fs::read_to_string(a.str("file", "")).expect("replay file");
             ord::run_replay::<C>(tr, &text, a.num("keys", 8) as i32);
         }
+        "ind" => {
+            let text = std::fs::read_to_string(a.str("states", "")).expect("states file");
+            let states: Vec<out::Snap> = text.lines().filter(|l| !l.trim().is_empty()).map(|l| out::parse_snap(l).expect("start state")).collect();
+            ord::run_ind::<C>(tr, &states, a.num("handles", 0) != 0);
+        }
         "paths" | "faults" => {
             let text = std::fs::read_to_string(a.str("paths", "")).expect("paths file");
             let paths = ord::parse_paths(&text);
